@@ -230,6 +230,28 @@ def rule_send(ctx):
             ctx.ob("C08.SEND", n, f"{verb}: whole-command strip() (drops the trailing space of an argument-less command; names have no trailing whitespace by the property's domain)", ok,
                    f"{verb}: the command is transformed with `{n.func.attr}` after the path was appended", construct=f"{verb}:command {n.func.attr}")
     ctx.floor("C08.SEND", 9, "path-taking command sites")
+    # CDUP stands for exactly the argument '..': any other path that merely ends in '..' is sent to the server as it is
+    cd = p.method("Client", "change_directory")
+    for iff in [x for x in walk_no_nested(cd) if isinstance(x, (ast.If, ast.IfExp))]:
+        bt = iff.body if isinstance(iff, ast.If) else [iff.body]
+        bf = iff.orelse if isinstance(iff, ast.If) else [iff.orelse]
+        in_t = any(isinstance(c, ast.Constant) and c.value == "CDUP" for s_ in bt for c in ast.walk(s_))
+        in_f = any(isinstance(c, ast.Constant) and c.value == "CDUP" for s_ in bf for c in ast.walk(s_))
+        if in_t == in_f:
+            continue
+        t = deep_expand(p, iff.test, cd)
+        neg = in_f
+        while isinstance(t, ast.UnaryOp) and isinstance(t.op, ast.Not):
+            t, neg = t.operand, not neg
+        whole = isinstance(t, ast.Compare) and len(t.ops) == 1 and isinstance(t.ops[0], ast.NotEq if neg else ast.Eq) and \
+            any(isinstance(x, ast.Name) for x in (t.left, t.comparators[0])) and \
+            any((isinstance(x, ast.Constant) and x.value == "..") or (isinstance(x, ast.Call) and x.args and isinstance(x.args[0], ast.Constant) and x.args[0].value == "..")
+                for x in (t.left, t.comparators[0]))
+        if isinstance(t, ast.Compare) and isinstance(t.left, ast.Call) and isinstance(t.left.func, ast.Name) and t.left.func.id == "str":
+            whole = len(t.ops) == 1 and isinstance(t.ops[0], ast.NotEq if neg else ast.Eq) and isinstance(t.comparators[0], ast.Constant) and t.comparators[0].value == ".."
+        ctx.ob("C08.SEND", iff, "change_directory sends CDUP only when the whole path is '..'", whole,
+               f"change_directory sends CDUP when `{src(iff.test)[:50]}` holds, which is not 'the path is exactly ..': '/a/b/..' is never sent to the server and the client "
+               "ends up in the parent of its current directory instead of in /a", construct="CDUP:not the whole path")
     # make_directory(parents=True) walks path.parents; names must be passed whole
     # change_directory: "CWD " + str(path) or "CDUP"
 
@@ -321,4 +343,11 @@ def rule_resolution(ctx):
     ctx.borrow(rule_res, {"C02.RES": "C08.RES"})
 
 
-RULES = [rule_resolution, rule_codec, rule_quote, rule_carry, rule_send, rule_sep, rule_shared_names, rule_listed_dir, rule_prefix_names]
+def rule_memory_names(ctx):
+    from .c18 import rule_index
+    ctx.rule("C08.RENAME", "what was renamed is reachable under the new name only, what was removed is gone under its name: the in-memory backend removes / replaces the entry "
+                           "whose name matched and renames it after taking it out of its old directory (shared with C18.INDEX)")
+    ctx.borrow(rule_index, {"C18.INDEX": "C08.RENAME"}, only=lambda fn: "rename" in fn or "rmdir" in fn or "unlink" in fn)
+
+
+RULES = [rule_memory_names, rule_resolution, rule_codec, rule_quote, rule_carry, rule_send, rule_sep, rule_shared_names, rule_listed_dir, rule_prefix_names]
